@@ -711,6 +711,29 @@ static std::string mip_value(const MIP_Problem& p) {
   o << " int"; const Variables_Set& iv = p.integer_space_dimensions(); for (Variables_Set::const_iterator i = iv.begin(); i != iv.end(); ++i) o << " " << *i;
   return o.str();
 }
+// Value equality of two MIP problems.  is_satisfiable() / solve() on a problem with integer variables add the bounds they branch on
+// (x >= ceil(v), after the branch x <= floor(v) turned out to have no integer point) to the problem ITSELF (MIP_Problem::is_mip_satisfiable):
+// implied by the constraints plus integrality, but which ones appear depends on the vertices the simplex happens to visit.  Two runs of one
+// scenario may therefore differ by such bounds on integer variables: they are skipped when the constraint lists are compared.
+static bool mip_branch_bound(const Constraint& c, const Variables_Set& iv) {
+  if (!c.is_nonstrict_inequality()) return false; int nz = 0; dimension_type v = 0;
+  for (dimension_type j = 0; j < c.space_dimension(); ++j) if (c.coefficient(Variable(j)) != 0) { ++nz; v = j; }
+  return nz == 1 && iv.count(v) != 0 && c.coefficient(Variable(v)) == 1;
+}
+static bool mip_same(const MIP_Problem& a, const MIP_Problem& b) {
+  if (mip_value(a) == mip_value(b)) return true;
+  std::ostringstream ha, hb; ha << a.space_dimension() << a.optimization_mode() << a.objective_function(); hb << b.space_dimension() << b.optimization_mode() << b.objective_function();
+  const Variables_Set& iv = a.integer_space_dimensions(); if (ha.str() != hb.str() || iv != b.integer_space_dimensions()) return false;
+  MIP_Problem::const_iterator i = a.constraints_begin(), ie = a.constraints_end(), j = b.constraints_begin(), je = b.constraints_end();
+  auto txt = [](const Constraint& c) { std::ostringstream o; o << c; return o.str(); };
+  while (i != ie || j != je) {
+    if (i != ie && j != je && txt(*i) == txt(*j)) { ++i; ++j; }
+    else if (i != ie && mip_branch_bound(*i, iv)) ++i;
+    else if (j != je && mip_branch_bound(*j, iv)) ++j;
+    else return false;
+  }
+  return true;
+}
 struct MipWorld {
   typedef MipPlain Plain;
   const Plain& P; MIP_Problem p, q;
@@ -726,7 +749,7 @@ struct MipWorld {
   std::string step_name(int i) const { return mstep_names[P.steps[i].kind]; }
   void assign_from(const MipWorld& w) { p = w.p; q = w.q; }
   std::string diff(const MipWorld& w) const { return "\n  p = " + mip_value(p) + "\n  clean run: " + mip_value(w.p) + "\n  q = " + mip_value(q) + "\n  clean run: " + mip_value(w.q); }
-  bool equal(const MipWorld& w) const { return mip_value(p) == mip_value(w.p) && mip_value(q) == mip_value(w.q); }
+  bool equal(const MipWorld& w) const { return mip_same(p, w.p) && mip_same(q, w.q); }
   // KF-C14-8: a failure inside solve() / is_satisfiable() leaves the tableau half updated: the problem may crash when it is used,
   // assigned to or destroyed
   const char* poison(int i) const { return is_const_step(i) ? "KF-C14-8" : 0; }
@@ -735,7 +758,7 @@ struct MipWorld {
     bool cst = is_const_step(i);
     if (phase == 1) { if (!cst) c.weak("b.receiver_ok." + fam, p.OK() && (st.kind != 6 || q.OK()), [&] { return "the receiver fails OK() after a failed " + what; }); return; }
     if (cst) {
-      c.check("b.arg_value." + fam, mip_value(p) == mip_value(snap.p), [&] { return "the problem changed in a failed const " + what + ":\n before " + mip_value(snap.p) + "\n after  " + mip_value(p); });
+      c.check("b.arg_value." + fam, mip_same(p, snap.p), [&] { return "the problem changed in a failed const " + what + ":\n before " + mip_value(snap.p) + "\n after  " + mip_value(p); });
       c.weak("b.arg_ok." + fam, p.OK(), [&] { return "the problem fails OK() after a failed const " + what; });
     }
     if (st.kind != 6) c.check("b.bystander." + fam, q.OK() && mip_value(q) == mip_value(snap.q), [&] { return "a problem not involved changed or fails OK() after a failed " + what; });
